@@ -48,6 +48,7 @@ def run(chk):
 
 
 def r05_1_forwarding(chk):
+    from ..terms import ctor_calls, contains
     ix = chk.ix
     model = Model(ix)
     ams = model.add_methods()
@@ -63,38 +64,48 @@ def r05_1_forwarding(chk):
             ci = c.methods.get("__init__")
             if ci is not None:
                 ctor_params |= set(ci.param_names)
-        used = {}
-        pos = list(ctor.args)
+        # the constructor call as a term: what each constructor parameter receives, whatever local names it went through
+        fs = chk.terms.summary(f)
+        cterms = ctor_calls(fs, ic)
+        if not cterms:
+            raise AnalysisError(f"{f.name}: construction of {ic.name} not found in the value-flow summary")
         init_pos = [p for p in (init.param_names[1:] if init else [])]
-        pairs = [(init_pos[i] if i < len(init_pos) else f"<pos{i}>", a) for i, a in enumerate(pos)]
-        pairs += [(k.arg, k.value) for k in ctor.keywords if k.arg]
-        for kname, val in pairs:
-            names = [n.id for n in ast.walk(val) if isinstance(n, ast.Name) and n.id in params]
-            for p in names:
-                used.setdefault(p, []).append(kname)
-        for p in params:
-            rows += 1
-            ks = used.get(p, [])
-            if p == "origin_reference":
-                ok = ks == ["origin_reference"]
-                chk.require(ok, "R05.1", f"forward:{f.name}.{p}", f"{f.name}: origin_reference is forwarded as {ks}",
-                            f.where, nontrivial=False)
-                continue
-            ok = len(ks) == 1
-            detail = f"{f.name}: parameter `{p}` is forwarded {len(ks)} times ({ks})"
-            if ok:
-                k = ks[0]
-                same = k == p or (p.endswith("_type") and k.strip("_") == "type")
-                target_ok = k in decl_fields or k in ctor_params
-                ok = same and target_ok
-                detail = f"{f.name}: parameter `{p}` lands in `{k}`" + ("" if target_ok else
-                                                                        f", which {ic.name} does not declare")
-            chk.require(ok, "R05.1", f"forward:{f.name}.{p}", detail, f.where, nontrivial=False)
-        # every keyword names something the class knows
-        for kname, val in pairs:
-            ok = kname in decl_fields or kname in ctor_params
-            chk.require(ok, "R05.1", f"keyword-known:{f.name}.{kname}",
-                        f"{f.name} passes `{kname}=` but {ic.name} declares no such attribute", f.where, nontrivial=False)
+        for cterm in cterms:
+            pairs = [(init_pos[i] if i < len(init_pos) else f"<pos{i}>", a) for i, a in enumerate(cterm[2])]
+            pairs += [(k, v) for k, v in cterm[3] if k]
+            direct, indirect = {}, {}
+            for kname, val in pairs:
+                for p in params:
+                    if val == ("param", p):
+                        direct.setdefault(p, []).append(kname)
+                    elif contains(val, ("param", p)):
+                        indirect.setdefault(p, []).append(kname)
+            for p in params:
+                rows += 1
+                # a parameter handed on as it is lands where it is passed; one that is only transformed on the way
+                # (a helper deriving the value to store from it) lands where the derived value is passed
+                ks = direct.get(p) or indirect.get(p, [])
+                if p == "origin_reference":
+                    ok = ks == ["origin_reference"]
+                    chk.require(ok, "R05.1", f"forward:{f.name}.{p}", f"{f.name}: origin_reference is forwarded as {ks}",
+                                f.where, nontrivial=False)
+                    continue
+                ok = len(ks) == 1
+                detail = f"{f.name}: parameter `{p}` is forwarded {len(ks)} times ({ks})"
+                if ok:
+                    k = ks[0]
+                    same = k == p or (p.endswith("_type") and k.strip("_") == "type")
+                    target_ok = k in decl_fields or k in ctor_params
+                    ok = same and target_ok
+                    detail = f"{f.name}: parameter `{p}` lands in `{k}`" + ("" if target_ok else
+                                                                            f", which {ic.name} does not declare")
+                chk.require(ok, "R05.1", f"forward:{f.name}.{p}", detail, f.where, nontrivial=False)
+            # every keyword names something the class knows
+            for kname, val in pairs:
+                ok = kname in decl_fields or kname in ctor_params
+                chk.require(ok, "R05.1", f"keyword-known:{f.name}.{kname}",
+                            f"{f.name} passes `{kname}=` but {ic.name} declares no such attribute", f.where,
+                            nontrivial=False)
     chk.floor("forwarded parameter rows", rows, 200)
     chk.info["forwarded_parameters"] = rows
 
